@@ -604,6 +604,8 @@ def skeletons(repo, entries):
             return True
         return any(has_pr(c) for c in n.get("inner") or [])
 
+    labels_seen, label_no = set(), {}
+
     def walk(n, out):
         if not isinstance(n, dict) or not n:
             return
@@ -642,10 +644,20 @@ def skeletons(repo, entries):
                 k == "BinaryOperator" and n.get("opcode") in ("&&", "||")):
             if has_pr(n):
                 out.append("unsupported")     # patch/restore under control flow the checker does not model
-        elif k in ("GotoStmt", "IndirectGotoStmt", "LabelStmt"):
-            out.append("unsupported")
+        elif k == "LabelStmt":
+            lid = n.get("declId")
+            labels_seen.add(lid)
+            out.append("label %d" % label_no.setdefault(lid, len(label_no)))
             for c in inner:
                 walk(c, out)
+        elif k == "GotoStmt":
+            lid = n.get("targetLabelDeclId")
+            if lid is None or lid in labels_seen:
+                out.append("unsupported")          # backward jump: a loop the checker does not model
+            else:
+                out.append("gotoF %d" % label_no.setdefault(lid, len(label_no)))
+        elif k == "IndirectGotoStmt":
+            out.append("unsupported")
         elif k == "CallExpr":
             for c in inner[1:]:
                 walk(c, out)
@@ -663,6 +675,8 @@ def skeletons(repo, entries):
         if name in patch | restore or not has_pr(d):
             continue
         out = []
+        labels_seen.clear()
+        label_no.clear()
         walk([c for c in d["inner"] if c.get("kind") == "CompoundStmt"][0], out)
         res.append((name, out))
     if not res:
@@ -784,11 +798,13 @@ def generate(repo=None):
     L.append("/-- structured control flow of a C function reduced to what matters for the patch protocol -/")
     L.append("inductive Tok where")
     L.append("  | " + " | ".join(TOKS))
+    L.append("  /-- forward `goto` to / position of the label numbered `l` (backward gotos are `unsupported`) -/")
+    L.append("  | gotoF (l : Nat) | label (l : Nat)")
     L.append("  deriving DecidableEq, Repr\n")
     L.append("/-- every function of mixer.c that calls the wrap-around patch (`Tok.patch`) or restore (`Tok.restore`) function,")
     L.append("in source order: loops, if/else, continue, break, return and those calls -/")
     L.append("def patchSkeletons : List (String × List Tok) := [")
-    L.append(",\n".join("  (%s, [%s])" % (lean_str(n), ", ".join("." + t for t in toks)) for n, toks in skel))
+    L.append(",\n".join("  (%s, [%s])" % (lean_str(n), ", ".join(("(.%s)" % t) if " " in t else ("." + t) for t in toks)) for n, toks in skel))
     L.append("]")
     L.append("\nend Xmp.Gen.DataWriters\n")
     return "\n".join(L), entries
